@@ -313,7 +313,7 @@ pub fn run(spec: &SeqSpec, hist: &[Op], cfg: &Cfg, stats: &SeqStats) -> Result<R
                     }
                     if before_entries != after_entries {
                         let key = if after_entries.is_err() {
-                            read_failure_key(&sut, &m, upto, true)
+                            read_failure_key(&sut, &m, &j, upto, true)
                         } else {
                             "restart-entries-differ".to_string()
                         };
@@ -518,7 +518,7 @@ pub fn run(spec: &SeqSpec, hist: &[Op], cfg: &Cfg, stats: &SeqStats) -> Result<R
         let got = sut.read(a, b);
         let want = m.read(a, b);
         if got.as_ref().ok() != Some(&want) {
-            let key = read_failure_key(&sut, &m, hist, got.is_err());
+            let key = read_failure_key(&sut, &m, &j, hist, got.is_err());
             return Err(vio(
                 spec,
                 &key,
@@ -548,7 +548,7 @@ pub fn run(spec: &SeqSpec, hist: &[Op], cfg: &Cfg, stats: &SeqStats) -> Result<R
             Err(p) => Err(format!("PANIC: {}", crate::sut::panic_msg(p))),
         };
         if snap.as_ref().ok() != Some(&m.all()) {
-            let key = read_failure_key(&sut, &m, hist, snap.is_err());
+            let key = read_failure_key(&sut, &m, &j, hist, snap.is_err());
             return Err(vio(
                 spec,
                 &key,
@@ -658,7 +658,7 @@ pub fn run(spec: &SeqSpec, hist: &[Op], cfg: &Cfg, stats: &SeqStats) -> Result<R
         let en2 = sut.read(0, u64::MAX);
         if st2 != m.st || en2.as_ref().ok() != Some(&m.all()) {
             let key = if st2 == m.st && en2.is_err() {
-                read_failure_key(&sut, &m, hist, true)
+                read_failure_key(&sut, &m, &j, hist, true)
             } else {
                 "restart-state-differs".to_string()
             };
@@ -718,7 +718,14 @@ pub fn reappended_below_highwater(hist: &[Op]) -> Vec<LogId> {
 }
 
 /// Mechanism class of a failing read: which live entries cannot be read.
-pub fn read_failure_key(sut: &Sut, m: &RefLog, hist: &[Op], is_err: bool) -> String {
+///
+/// The known finding F3 is exactly: the eviction boundary is the one the
+/// protocol prescribes (so the worker/open logic is intact), yet it covers an
+/// entry that lives in the open chunk, because that entry was (re-)appended
+/// with a log id at or below an id journalled before it. Anything else — a
+/// boundary the protocol would not have installed, an unreadable entry in a
+/// closed chunk, an entry above the boundary — is a different violation.
+pub fn read_failure_key(sut: &Sut, m: &RefLog, j: &Journal, hist: &[Op], is_err: bool) -> String {
     let mut failing = vec![];
     for (i, (id, p)) in &m.entries {
         match sut.read(*i, *i + 1) {
@@ -727,7 +734,13 @@ pub fn read_failure_key(sut: &Sut, m: &RefLog, hist: &[Op], is_err: bool) -> Str
         }
     }
     let f3 = reappended_below_highwater(hist);
-    if !failing.is_empty() && failing.iter().all(|id| f3.contains(id)) && is_err {
+    let actual = sut.cache().boundary;
+    let in_open_chunk = |id: &LogId| j.open().recs.iter().any(|r| matches!(r, MRec::Append(x, _) if x == id));
+    let f3_mechanism = !failing.is_empty()
+        && is_err
+        && actual == j.boundary_effective
+        && failing.iter().all(|id| f3.contains(id) && Some(*id) <= actual && in_open_chunk(id));
+    if f3_mechanism {
         "F3:read-error-on-entry-reappended-below-truncated-id".to_string()
     } else if is_err {
         "read-error".to_string()
